@@ -8,6 +8,8 @@ package c01
 import (
 	"encoding/json"
 	"fmt"
+	"os"
+	"os/exec"
 	"regexp"
 	"runtime/debug"
 	"strings"
@@ -349,6 +351,7 @@ func (w *worker) do(src string, family string, modeSet []int) {
 			t = newRT()
 			w.rts[mi] = t
 		}
+		w.run.TraceCase(Case{Src: src, Mode: m.name, Family: family})
 		fails, outcome, nontrivial, reusable := t.exec(src, m)
 		if reusable && len(fails) == 0 {
 			if f := t.probe(); f != nil {
@@ -445,6 +448,17 @@ func replay(r *core.Run, raw json.RawMessage) {
 		return
 	}
 	r.Eval(1)
+	if os.Getenv("C01_REPLAY_CHILD") == "" {
+		// the case may kill the process: try it in a child first
+		exe, _ := os.Executable()
+		cmd := exec.Command("/bin/sh", "-c", "ulimit -v 8388608; exec \"$0\" \"$@\"", exe, "C01", "--replay", os.Getenv("VERIF_REPLAY_PATH"))
+		cmd.Env = append(os.Environ(), "C01_REPLAY_CHILD=1", "GOTRACEBACK=single")
+		out, err := cmd.CombinedOutput()
+		if ee, ok := err.(*exec.ExitError); ok && ee.ExitCode() != 1 {
+			r.Violation("fatal|"+core.FatalReason(string(out)), "the process executing this case died: "+core.FatalReason(string(out)), c)
+			return
+		}
+	}
 	for _, f := range runCase(c) {
 		r.Violation(f.sig, f.what, c)
 	}
@@ -460,17 +474,50 @@ func allModes() []int {
 
 func run(r *core.Run) {
 	r.Assume("runtimes are configured with SetMaxCallStackSize(200); programs exceeding a 20000-instruction budget are interrupted and their runtime discarded (C03/C15 cover reuse after interrupts)")
-	r.Assume("Go fatal errors (stack exhaustion, out of memory) cannot be recovered in-process; the alphabets avoid allocation bombs, the nesting families stay within the property's depth-200 / 64 KiB limits")
+	r.Assume("Go fatal errors (stack exhaustion, out of memory) cannot be recovered in-process: the enumeration runs in worker processes under ulimit -v 8 GiB; a worker that dies is re-run in trace mode and the death is attributed to the last announced case")
+	if !r.IsWorker() && os.Getenv("C01_INPROCESS") == "" {
+		r.Exhaustive(r.RunSharded(8 << 20))
+		return
+	}
 	complete := true
 	bounds := map[string]interface{}{}
 
 	// known-finding regression corpus and fixed families first (cheap), then the enumerations by increasing size.
+	complete = runCorpus(r, bounds) && complete
 	complete = runFamilies(r, bounds) && complete
 	complete = runBytes(r, bounds) && complete
 	complete = runEdits(r, bounds) && complete
 	complete = runGrammars(r, bounds) && complete
 	r.Set("bounds_completed", bounds)
 	r.Exhaustive(complete)
+}
+
+// ---------- regression corpus: the unedited seeds and every input that ever failed ----------
+
+var regression = []string{
+	"var [...function ] = a", "[...function ] = a", "#a", "({#a:1})", "var { #p: ff = 1 } = o", "((0 && 1), (0 && 1))", "var q=(((0 && 1),1))",
+	"var o={}; x = o?.p?.[0]?.(1)  (2);", "o?.p(...[1])", "u?.(...[1])", "f(1, u?.(...[1]), ...[3,4])", "[1, u?.p(1)(2), 3]",
+	"var ar2 = a => { return  arguments  }; ar2(2)", "(function(){ var g = () => () => arguments[0]; return g()() })(5)",
+	"var it = { [Symbol.iterator]() { return {  get next() { return { done: true } } } } }; for (var z of it) break;", "var [d1] = { [Symbol.iterator]() { return {} } }",
+	"function* g(){ yield* { [Symbol.iterator]() { return { next: 1 } } } } [...g()]",
+	"throw new Proxy({}, { get(t, k, r) { return k } })", "throw { toString(){ throw 1 } }", "throw { [Symbol.toPrimitive]: 1 }",
+	"switch(1){case 1: let x=1; eval(\"x\")}", "switch(1){case 1: let x1=1; eval(\"x1\"); default: let y1=2}", "(function(){ switch(1){case 1: let x=1; return eval(\"x\")} })()",
+	"\"é\".replaceAll(\"\", \"a\")", "var x=-0; x++; Object.is(x,1)", "(async function(){ await {constructor:Promise} })()",
+	"x = (function*(){ try { x = yield 1; throw 2 } catch(e) { return e } })(); x.next(); x.next(3)", "(async function(){ try { u = await 1; null.p } catch(e) { return 1 } })()",
+}
+
+func runCorpus(r *core.Run, bounds map[string]interface{}) bool {
+	all := append(append([]string{}, regression...), seeds...)
+	ms := allModes()
+	ok := r.Parallel(int64(len(all)), 1, func(wk int, lo, hi int64) {
+		w := newWorker(r)
+		w.batch = 1
+		for i := lo; i < hi; i++ {
+			w.do(all[i], fmt.Sprintf("corpus/%d", i), ms)
+		}
+	})
+	bounds["corpus"] = fmt.Sprintf("%d regression inputs and unedited seeds x %d placements", len(all), len(ms))
+	return ok
 }
 
 // ---------- (a) grammars ----------
